@@ -15,7 +15,13 @@ func vxH_C18_readOnly() {
 	good := fs.content(cur[0])
 
 	// what else a previous run or crash may have left in the directory
-	switch vxChoose(5) {
+	switch vxChoose(7) {
+	case 5: // a newer file whose header is incomplete (crash during creation)
+		cp := make([]byte, 12)
+		copy(cp, good[:12])
+		fs.addFile(FormatFName(7), cp)
+	case 6: // a newer zero-length file
+		fs.addFile(FormatFName(7), []byte{})
 	case 1: // an older complete data file
 		cp := make([]byte, len(good))
 		copy(cp, good)
@@ -44,19 +50,20 @@ func vxH_C18_readOnly() {
 		vxAssert("ro-get-ok", gerr == nil)
 		vxObserveBytes("ro-get", got)
 		vxAssert("ro-serves-persisted-content", vxGotIs(got, vxRefGet(K, layers...)))
-		// whatever is executed against the collection
-		switch vxChoose(4) {
-		case 1:
-			ents := vxNewBatchEnts(1, kl, vl, vxOpsSetDel)
-			vxExec(coll, ents)
-		case 2:
-			coll.(*collection).NotifyMerger("mergeAll", false)
-		case 3:
-			ss, _ := coll.Snapshot()
-			if ssStack, ok := ss.(*segmentStack); ok {
-				store.Persist(ssStack, po)
+		// whatever is executed against the collection: up to two operations
+		for n := 0; n < 2; n++ {
+			switch vxChoose(4) {
+			case 1:
+				vxExec(coll, vxFixedSet())
+			case 2:
+				coll.(*collection).NotifyMerger("mergeAll", false)
+			case 3:
+				ss, _ := coll.Snapshot()
+				if ssStack, ok := ss.(*segmentStack); ok {
+					store.Persist(ssStack, po)
+				}
+				ss.Close()
 			}
-			ss.Close()
 		}
 		vxQuiesce()
 		coll.Close()
